@@ -71,8 +71,39 @@ func GenA4Seq(t *rapid.T) A4Seq {
 	return s
 }
 
+var (
+	a4Sess *server.Session4
+	a4Cur  *A4Case
+)
+
+// a4Action is the synthetic plugin of a row
+func a4Action(c *A4Case) handler.Handler4 {
+	return func(req, resp *dhcpv4.DHCPv4) (*dhcpv4.DHCPv4, bool) {
+		switch c.Action {
+		case "addr":
+			resp.YourIPAddr = net.ParseIP(c.YIAddr).To4()
+		case "nak":
+			resp.UpdateOption(dhcpv4.OptMessageType(dhcpv4.MessageTypeNak))
+		}
+		return resp, false
+	}
+}
+
+func feedSess4(s4 *server.Session4, dgram []byte, oob *ipv4.ControlMessage, peer *net.UDPAddr) (sent []server.Sent, panicked interface{}) {
+	defer func() {
+		if r := recover(); r != nil {
+			core.HarnessPanic(r)
+			panicked = r
+		}
+	}()
+	return s4.Feed(dgram, oob, peer), nil
+}
+
 // ExecA4Seq runs the rows in order
 func ExecA4Seq(s A4Seq) (res core.Result) {
+	a4Cur = new(A4Case)
+	a4Sess = server.NewSession4([]handler.Handler4{a4Action(a4Cur)}, nil)
+	defer func() { a4Sess, a4Cur = nil, nil }()
 	seen := map[int]bool{}
 	for i, c := range s.Rows {
 		r := ExecA4(c)
@@ -198,16 +229,13 @@ func ExecA4(c A4Case) (res core.Result) {
 	if other != nil && other.Index == l2.Index {
 		other = all[(c.IfSel+1)%len(all)]
 	}
-	act := func(req, resp *dhcpv4.DHCPv4) (*dhcpv4.DHCPv4, bool) {
-		switch c.Action {
-		case "addr":
-			resp.YourIPAddr = net.ParseIP(c.YIAddr).To4()
-		case "nak":
-			resp.UpdateOption(dhcpv4.OptMessageType(dhcpv4.MessageTypeNak))
-		}
-		return resp, false
+	hs := []handler.Handler4{a4Action(&c)}
+	// inside a sequence the unbound rows share one listener value, as the datagrams of a running
+	// server do (the session's handler acts on whatever row is current)
+	useSess := a4Sess != nil && c.Listener == "unbound"
+	if useSess {
+		*a4Cur = c
 	}
-	hs := []handler.Handler4{act}
 	var cap4 *server.Capture4
 	recvIdx := l2.Index
 	wantIf := l2.Index
@@ -314,7 +342,14 @@ func ExecA4(c A4Case) (res core.Result) {
 		// the frame would have to leave on an interface that does not exist: nothing can be asserted but "no crash"
 		res.Classes = append(res.Classes, "l2-on-missing-interface")
 	}
-	sent, pan := feed4(cap4, p.Bytes(), &ipv4.ControlMessage{IfIndex: recvIdx}, src)
+	var sent []server.Sent
+	var pan interface{}
+	if useSess {
+		res.Classes = append(res.Classes, "same-listener-as-previous-rows")
+		sent, pan = feedSess4(a4Sess, p.Bytes(), &ipv4.ControlMessage{IfIndex: recvIdx}, src)
+	} else {
+		sent, pan = feed4(cap4, p.Bytes(), &ipv4.ControlMessage{IfIndex: recvIdx}, src)
+	}
 	if pan != nil {
 		res.Viol = core.Violate("C15/panic", "HandleMsg4 panicked: %v", pan)
 		return
